@@ -272,4 +272,69 @@ theorem vm_complete_from_atom_fwd (c : Ctx) (x : Re) (hx : AtomLeaf x) (hg : Hex
   subst he
   exact hr
 
+/-! ### backwards: the part before the atom, read through the mirrored context -/
+/-- the context of the hole in the mirrored pattern -/
+def revCtx : Ctx → Ctx
+  | .hole => .hole
+  | .catL c r => .catR (rev r) (revCtx c)
+  | .catR l c => .catL (revCtx c) (rev l)
+  | .altL c r => .altL (revCtx c) (rev r)
+  | .altR l c => .altR (rev l) (revCtx c)
+  | .plusIn c g => .plusIn (revCtx c) g
+
+theorem revCtx_fill (x : Re) : ∀ c : Ctx, (revCtx c).fill (rev x) = rev (c.fill x)
+  | .hole => rfl
+  | .catL c r => by simp only [revCtx, Ctx.fill, rev, revCtx_fill x c]
+  | .catR l c => by simp only [revCtx, Ctx.fill, rev, revCtx_fill x c]
+  | .altL c r => by simp only [revCtx, Ctx.fill, rev, revCtx_fill x c]
+  | .altR l c => by simp only [revCtx, Ctx.fill, rev, revCtx_fill x c]
+  | .plusIn c g => by simp only [revCtx, Ctx.fill, rev, revCtx_fill x c]
+
+theorem holePos_rev (x : Re) : ∀ (c : Ctx) (a : Nat), holePos (revCtx c) a + leafLen x = bwdPos x c a
+  | .hole, a => rfl
+  | .catL c r, a => by simp only [revCtx, holePos, bwdPos]; exact holePos_rev x c _
+  | .catR l c, a => by simp only [revCtx, holePos, bwdPos]; exact holePos_rev x c _
+  | .altL c r, a => by simp only [revCtx, holePos, bwdPos]; exact holePos_rev x c _
+  | .altR l c, a => by simp only [revCtx, holePos, bwdPos]; exact holePos_rev x c _
+  | .plusIn c g, a => by simp only [revCtx, holePos, bwdPos]; exact holePos_rev x c _
+
+theorem afterM_bwd {e : Env} (h : BwdByte e) {x : Re} : ∀ {c : Ctx}, CtxG (revCtx c) → ∀ {q t : Nat}, q ≤ t → t ≤ e.start →
+    c.Before (specFlags e.fl) e.buf x (e.start - t) (e.start - q) → AfterM (bwdC e h) (revCtx c) q t
+  | .hole, _, q, t, h1, h2, hb => by simp only [Ctx.Before] at hb; simp only [revCtx, AfterM]; omega
+  | .catL c r, hc, _, _, h1, h2, hb => afterM_bwd h (c := c) hc.2 h1 h2 hb
+  | .catR l c, hc, q, t, h1, h2, hb => by
+    obtain ⟨u, m1, m2⟩ := hb
+    have b1 := before_le m2
+    have b2 := Matches.bounds m1
+    simp only [revCtx, AfterM]
+    refine ⟨e.start - u, by omega, by omega, afterM_bwd h (x := x) (c := c) hc.1 (by omega) (by omega) ?_, ⟨by omega, h2, ?_⟩⟩
+    · rw [show e.start - (e.start - u) = u by omega]; exact m2
+    · rw [rev_rev, show e.start - (e.start - u) = u by omega]; exact m1
+  | .altL c _, hc, _, _, h1, h2, hb => afterM_bwd h (c := c) hc.1 h1 h2 hb
+  | .altR _ c, hc, _, _, h1, h2, hb => afterM_bwd h (c := c) hc.2 h1 h2 hb
+  | .plusIn _ _, hc, _, _, _, _, _ => hc.elim
+
+/-- BACKWARD verification run from behind the atom node's instruction in the backward code: if the part of the pattern
+    before the atom matches [start - lb, start) (within the scan window), the exhaustive run reports `lb` -/
+theorem vm_complete_from_atom_bwd (c : Ctx) (x : Re) (hx : AtomLeaf x) (hg : HexG (rev (c.fill x)))
+    (hsz : (emit true (c.fill x) 0).1.length < 32000) (hid : (emit true (c.fill x) 0).2 ≤ 256)
+    (buf : Bytes) (start : Nat) (hst : start ≤ buf.size) (fl : VmFlags) (hw : fl.wide = false) (hb : fl.backwards = true)
+    (hsc : fl.scan = false) (fuel : Nat) (m : Int) (cl : List Nat)
+    (h : exec { code := (emitCode true (c.fill x)).toArray, entry := bwdPos x c 0, buf := buf, start := start, fl := fl, syncFuel := fuel } = .done m cl)
+    (lb : Nat) (hlb : lb ≤ 1024) (hls : lb ≤ start) (hbf : c.Before (specFlags fl) buf x (start - lb) start) :
+    0 ≤ m ∧ (fl.exhaustive = true → lb ∈ cl) := by
+  obtain ⟨e, he⟩ : ∃ e : Env, e = { code := (emitCode true (c.fill x)).toArray, entry := bwdPos x c 0, buf := buf, start := start, fl := fl, syncFuel := fuel } := ⟨_, rfl⟩
+  rw [← he] at h
+  have hbb : BwdByte e := by subst he; exact ⟨hw, hb, hst⟩
+  rw [← revCtx_fill] at hg
+  have hcg := ctxG_of_hexG (by rw [rev_atomLeaf hx]; exact hx) hg
+  have hmax : lb ≤ e.maxBytes := by rw [maxBytes_bwd hbb]; subst he; show lb ≤ min start 1024; omega
+  rw [emit_rev, ← revCtx_fill, rev_atomLeaf hx] at hsz hid
+  have hcode : e.code = ((emit false ((revCtx c).fill x) 0).1 ++ [0xAD]).toArray := by
+    subst he; simp only [emitCode, emit_rev]; rw [← revCtx_fill, rev_atomLeaf hx]
+  have hr := complete_after_hole (bwdC e hbb) (revCtx c) x hcg hx hsz hid hcode (by subst he; exact (holePos_rev x c 0).symm)
+    (by subst he; exact hsc) m cl h lb hmax (afterM_bwd hbb hcg (Nat.zero_le _) (by subst he; exact hls) (by subst he; exact hbf))
+  subst he
+  exact hr
+
 end YaraModel.ReEmit
